@@ -418,15 +418,31 @@ def _state_only(v: ast.AST, S: str) -> bool:
 def r3(ctx):
     P = ctx.project
     b = P.func(MAT + "._build_model_matrix")
-    ifs = [n for n in walk_no_nested(b.node) if isinstance(n, ast.If)]
-    conds = [norm(n.test) for n in ifs if "structure" in norm(n.test)]
+    from ..expect import contains
+    from ..util import guards_of
     ctx.look(3)
-    ctx.check(conds == ["spec.structure", "spec.structure"], "C04.R3", "scoped-term reuse and column enforcement are guarded by the same condition", b.where,
-              ctx.construct(b, text="structure conditions"), f"structure-related conditions: {conds}")
-    gen = [n for n in ast.walk(b.node) if isinstance(n, ast.GeneratorExp) and norm(n.generators[0].iter) == "spec.structure"]
-    ok = len(gen) == 1 and norm(gen[0].elt) == "(s.term, [st.rehydrate(self.factor_cache) for st in s.scoped_terms])"
-    ctx.check(ok, "C04.R3", "recorded terms and scoped terms are reused in recorded order, rehydrated from this build's factor cache", b.where,
-              ctx.construct(b, text="rehydration"), f"reuse generator is `{norm(gen[0].elt)[:120] if gen else None}`")
+    # every construct that depends on the recorded structure is taken exactly when `spec.structure` is set
+    sites = [n for n in ast.walk(b.node) if (isinstance(n, ast.Call) and isinstance(n.func, ast.Attribute) and n.func.attr in ("_enforce_structure", "rehydrate", "_get_scoped_terms"))
+             or (isinstance(n, ast.Call) and norm(n.func) == "spec.update" and kwarg(n, "structure") is not None)]
+    want = {"_enforce_structure": True, "rehydrate": True, "_get_scoped_terms": False, "update": False}
+    got = {}
+    for n in sites:
+        g = [(c, pol) for c, pol in guards_of(P, n) if "structure" in c]
+        got[n.func.attr] = g
+    ok = set(got) == set(want) and all(got[k] == [("spec.structure", want[k])] for k in want)
+    ctx.check(ok, "C04.R3", "scoped-term reuse and column enforcement are guarded by the same condition", b.where,
+              ctx.construct(b, text="structure conditions"), f"structure-related conditions: {got}")
+    ok, why2 = contains(P, b, """
+        def _build_model_matrix(self, spec, drop_rows):
+            if spec.structure:
+                scoped_terms_for_terms = ((s.term, [st.rehydrate(self.factor_cache) for st in s.scoped_terms]) for s in spec.structure)
+            else:
+                scoped_terms_for_terms = self._get_scoped_terms(ANY_terms, ensure_full_rank=spec.ensure_full_rank)
+            ...
+    """)
+    ok2 = False
+    ctx.check(ok or ok2, "C04.R3", "recorded terms and scoped terms are reused in recorded order, rehydrated from this build's factor cache", b.where,
+              ctx.construct(b, text="rehydration"), f"{why2}")
     rh = P.method("formulaic.materializers.types.scoped_term.ScopedTerm", "rehydrate")
     r = returns_of(rh.node)
     t = norm(r[0].value) if r else ""
@@ -438,10 +454,23 @@ def r3(ctx):
     ok = "ScopedFactor(factor=factor.factor.replace(values=None), reduced=factor.reduced)" in t and "return ScopedTerm(factors, scale=self.scale)" in t
     ctx.check(ok, "C04.R3", "the recorded copy (without values) keeps reduced flags and scale", cp.where, ctx.construct(cp, text="copy"),
               "ScopedTerm.copy(without_values=True) must keep `reduced` and `scale`")
-    upd = [c for c in ast.walk(b.node) if isinstance(c, ast.Call) and norm(c.func) == "spec.update" and kwarg(c, "structure") is not None]
-    ok = len(upd) == 1 and "EncodedTermStructure(term, list((st.copy(without_values=True) for st in scoped_terms)), list(scoped_cols))" in norm(upd[0])
+    SK = """
+        def _build_model_matrix(self, spec, drop_rows):
+            cols = []
+            for term, scoped_terms in scoped_terms_for_terms:
+                scoped_cols = {}
+                ...
+                cols.append((term, scoped_terms, scoped_cols))
+            if spec.structure:
+                cols = list(self._enforce_structure(cols, spec, drop_rows))
+            else:
+                spec = spec.update(structure=[EncodedTermStructure(term, %s, list(scoped_cols)) for term, scoped_terms, scoped_cols in cols])
+            ...
+    """
+    from ..expect import contains_any
+    ok, why = contains_any(P, b, [SK % "list(st.copy(without_values=True) for st in scoped_terms)", SK % "[st.copy(without_values=True) for st in scoped_terms]"])
     ctx.check(ok, "C04.R3", "the recorded structure lists, per term, its scoped terms and the generated column names in generation order", b.where,
-              ctx.construct(b, text="record structure"), "structure recording changed shape")
+              ctx.construct(b, text="record structure"), f"structure recording: {why}")
 
 
 def r4(ctx):
@@ -463,42 +492,58 @@ def r4(ctx):
     ctx.check(len(calls) == 1 and "sanitize_variable_names(" in norm(calls[0].args[0]), "C04.R4", "the parser normalises Python fragments with format_expr", sp.where,
               ctx.construct(sp, text="format_expr"), "sanitize_python_code must return format_expr(sanitize_variable_names(...))")
     se = P.func("formulaic.utils.stateful_transforms.stateful_eval")
-    keyexprs = []
-    for lp_ in [x for x in walk_no_nested(se.node) if isinstance(x, ast.For) and norm(x.iter) == "ast.walk(code)"]:
-        for c_ in ast.walk(lp_):
-            if isinstance(c_, ast.Call) and isinstance(c_.func, ast.Attribute) and c_.func.attr in ("append", "setdefault") and c_.args:
-                a0 = c_.args[0]
-                keyexprs.append(norm(a0.elts[0]) if isinstance(a0, ast.Tuple) and a0.elts else norm(a0))
-            if isinstance(c_, ast.Assign) and isinstance(c_.targets[0], ast.Subscript):
-                keyexprs.append(norm(c_.targets[0].slice))
-    ok = "format_expr(node)" in keyexprs
+    from ..expect import contains
+    ok, why = contains(P, se, """
+        def stateful_eval(expr, env, metadata, state, spec, variables=None):
+            stateful_nodes = []
+            for node in ast.walk(code):
+                if _is_stateful_transform(node, env):
+                    stateful_nodes.append((format_expr(node), node))
+            for name, node in stateful_nodes:
+                ...
+            ...
+    """)
     ctx.check(ok, "C04.R4", "stateful_eval keys transform state with the same normaliser", se.where, ctx.construct(se, text="state key"),
-              f"state key expressions are {keyexprs}; expected format_expr(node)")
-    t = norm(se.node)
-    ok = "if name not in state:" in t and "state[name] = {}" in t and "__FORMULAIC_STATE__[\"{name}\"]" in t.replace("\\'", "'") or "__FORMULAIC_STATE__[" in t
+              f"every stateful call must be collected as (format_expr(node), node): {why}")
+    ok, why = contains(P, se, """
+        def stateful_eval(expr, env, metadata, state, spec, variables=None):
+            for name, node in ANY_nodes:
+                ...
+                if name not in state:
+                    state[name] = {}
+                ...
+                node.keywords.append(ast.keyword("_state", ast.parse(f'__FORMULAIC_STATE__["{name}"]', mode="eval").body))
+                ...
+            ...
+    """)
     ctx.check(ok, "C04.R4", "a transform's state dict is created once per key and handed to the call by that key", se.where, ctx.construct(se, text="state dict per key"),
-              "state[name] must be created only when absent and passed as _state")
+              f"state[name] must be created only when absent and passed as _state: {why}")
     # every stateful call found is instrumented: the collection keeps ALL occurrences (the same call may appear twice in one factor)
-    coll = [lp for lp in walk_no_nested(se.node) if isinstance(lp, ast.For) and norm(lp.iter) == "ast.walk(code)"]
-    ok = False
-    cname = None
-    if coll:
-        for st in ast.walk(coll[0]):
-            if isinstance(st, ast.Expr) and isinstance(st.value, ast.Call) and isinstance(st.value.func, ast.Attribute) and st.value.func.attr == "append":
-                base = st.value.func.value
-                while isinstance(base, (ast.Call, ast.Attribute)):
-                    base = base.func.value if isinstance(base, ast.Call) and isinstance(base.func, ast.Attribute) else getattr(base, "value", None)
-                    if base is None:
-                        break
-                if isinstance(base, ast.Name):
-                    ok, cname = True, base.id
+    ok, why = contains(P, se, """
+        def stateful_eval(expr, env, metadata, state, spec, variables=None):
+            stateful_nodes = []
+            for node in ast.walk(code):
+                if _is_stateful_transform(node, env):
+                    stateful_nodes.append(ANY_item)
+            for name, node in stateful_nodes:
+                ...
+            ...
+    """)
     ctx.check(ok, "C04.R4", "stateful_eval keeps every occurrence of a stateful call (appends, never overwrites by key)", se.where, ctx.construct(se, text="collect stateful nodes"),
               "stateful calls are collected with a keyed store (`nodes[key] = node`): of several identical calls in one factor only the last is handed `_state`, the "
               "others re-fit on new data")
-    inst = [lp for lp in walk_no_nested(se.node) if isinstance(lp, ast.For) and cname and cname in norm(lp.iter) and lp not in coll]
-    kws = sorted(const_kw.args[0].value for lp in inst for const_kw in ast.walk(lp) if isinstance(const_kw, ast.Call) and norm(const_kw.func) == "ast.keyword" and const_kw.args and isinstance(const_kw.args[0], ast.Constant))
-    ctx.check(kws == ["_context", "_metadata", "_spec", "_state"], "C04.R4", "each collected call is given _context, _metadata, _state and _spec", se.where,
-              ctx.construct(se, text="instrument"), f"keywords injected: {kws}")
+    ok, why = contains(P, se, """
+        def stateful_eval(expr, env, metadata, state, spec, variables=None):
+            for name, node in ANY_nodes:
+                ...
+                node.keywords.append(ast.keyword("_context", ast.parse("__FORMULAIC_CONTEXT__", mode="eval").body))
+                node.keywords.append(ast.keyword("_metadata", ast.parse(f'__FORMULAIC_METADATA__.get("{name}")', mode="eval").body))
+                node.keywords.append(ast.keyword("_state", ast.parse(f'__FORMULAIC_STATE__["{name}"]', mode="eval").body))
+                node.keywords.append(ast.keyword("_spec", ast.parse("__FORMULAIC_SPEC__", mode="eval").body))
+            ...
+    """)
+    ctx.check(ok, "C04.R4", "each collected call is given _context, _metadata, _state and _spec", se.where,
+              ctx.construct(se, text="instrument"), f"keywords injected: {why}")
     # the state key identifies the ORIGINAL expression: text that went through sanitize_variable_names (non-injective: every non-word
     # character becomes `_`) must be mapped back through the alias table before it is used as an identity, as the parser's normaliser does
     spc = P.func("formulaic.parser.algos.sanitize_tokens.sanitize_python_code")
